@@ -47,6 +47,10 @@ class ProgramProperty:
                 case["steps"] = case["steps"] + extra
                 impl = common.run_impl(case["steps"])
             case["phase2_done"] = True
+        if case.get("shadow"):
+            # a second program that only the implementation runs and only the property's own laws judge (no model): used for
+            # histories whose meaning Python, not the library, defines -- copy.copy(converter) aliases every attribute
+            case["_shadow_impl"] = common.run_impl(case["shadow"])
         return impl
 
     def phase2(self, case, impl) -> list:
@@ -69,10 +73,14 @@ class ProgramProperty:
         # (phase-2 steps, appended after the tail, are kept: they query converters the tail does not touch)
         if case.get("_scope"):
             return []           # exhaustive small-scope cases (harness/smallscope.py): correspondence and Lean spec verdict only
+        shadow = []
+        if case.get("shadow") and case.get("_shadow_impl") is not None:
+            shadow = ["[after c1 = copy.copy(c0) and additions to c1] " + f
+                      for f in self.laws(dict(case, steps=case["shadow"]), case["_shadow_impl"])]
         if not any(st.get("_tail") for st in case["steps"]):
-            return self.laws(case, impl)
+            return self.laws(case, impl) + shadow
         keep = [i for i, st in enumerate(case["steps"]) if not st.get("_tail")]
-        return self.laws(dict(case, steps=[case["steps"][i] for i in keep]), [impl[i] for i in keep])
+        return self.laws(dict(case, steps=[case["steps"][i] for i in keep]), [impl[i] for i in keep]) + shadow
 
     def laws(self, case, impl) -> list[str]:
         """The property's own laws evaluated directly on the implementation's outputs."""
@@ -100,7 +108,11 @@ class ProgramProperty:
 
     def readable(self, case, impl):
         lines = common.show_program(case["steps"])
-        return [f"{l}  ->  {common.show_val(v)}" for l, v in zip(lines, impl)]
+        out = [f"{l}  ->  {common.show_val(v)}" for l, v in zip(lines, impl)]
+        if case.get("shadow") and case.get("_shadow_impl") is not None:
+            out.append("-- second program (implementation only, judged by the property's laws):")
+            out += [f"{l}  ->  {common.show_val(v)}" for l, v in zip(common.show_program(case["shadow"]), case["_shadow_impl"])]
+        return out
 
     def matches_known(self, entry, case, fails) -> bool:
         return False
@@ -248,4 +260,6 @@ def case_records(case) -> list:
             out.append(st["record"])
         if st["op"] == "add_prefix":
             out.append({"p": st["p"], "u": st["u"], "ps": st.get("ps", []), "us": st.get("us", [])})
+        if st["op"] == "load_pm":
+            out.extend({"p": k, "u": v, "ps": [], "us": []} for k, v in st["data"])
     return out
